@@ -573,8 +573,10 @@ func (c *Check) valueUnitPairing() {
 			c.bad("C15-R6", key, pos, "the value convertUnit divides is not the input multiplied by the source unit's factor")
 		}
 	}
-	if n < 3 {
-		c.undecided("C15-R6", "pair:convertUnit", p.relFile(f.Pos()), fmt.Sprintf("expected at least 3 successful returns in convertUnit, found %d", n))
+	// (three on the reviewed tree; merging the default-unit and named-unit returns into one that
+	// goes through a selected *Unit leaves two)
+	if n < 2 {
+		c.undecided("C15-R6", "pair:convertUnit", p.relFile(f.Pos()), fmt.Sprintf("expected at least 2 successful returns in convertUnit, found %d", n))
 	}
 	// autoScale: factor and name are picked from the same unit in the same step
 	if as := c.anchorFn("C15-R6", "internal/measurement", "UnitType.autoScale"); as != nil {
